@@ -368,9 +368,10 @@ def unit(root='/repo'):
             assert forall|k: int| #[trigger] h0.live(k) implies vxh.live(k) && vxh.nodes[k].parent == h0.nodes[k].parent && vxh.nodes[k].depth == h0.nodes[k].depth by { assert(h1.live(k)); }
             assert forall|k: int| !h0.live(k) implies !#[trigger] vxh.live(k) by { assert(!h1.live(k)); }
             // (were the lower real inodes kept behind the upper copy, the record would be kept with them)
-            if vxh.ris(me).len() == h1.ris(me).len() + 1 && vxh.ris(me).skip(1) == h1.ris(me) && h1.rec_id(me) && lower_has(h1.nodes[me].path) {
+            if vxh.ris(me).len() == h1.ris(me).len() + 1 && (forall|j: int| 0 <= j < h1.ris(me).len() ==> vxh.ris(me)[j + 1] == #[trigger] h1.ris(me)[j]) && h1.rec_id(me) && lower_has(h1.nodes[me].path) {
                 let i = choose|i: int| 0 <= i < h1.ris(me).len() && !(#[trigger] h1.ris(me)[i]).in_upper_layer;
                 assert(vxh.ris(me)[i + 1] == h1.ris(me)[i]);
+                assert(vxh.rec_id(me));
             }
             assert(h1.rec_pres(h0));
             assert forall|k: int| #[trigger] vxh.live(k) && k != me && (h0.live(k) ==> h0.nodes[k].wh || h0.rec_id(k)) implies vxh.rec_id(k) by {
